@@ -25,8 +25,8 @@ RULE = (
 )
 BOUNDS = {"rows": "12-400", "features": "1-3", "fits_per_case": "2-4"}
 ASSUMPTIONS = ["numeric-valued categories are not renamed (their string form is their identity)"]
-BUDGET = {"quick": 500, "thorough": 6000}
-DEADLINE_S = {"quick": 230, "thorough": 2800}
+BUDGET = {"quick": 500, "thorough": 20000}
+DEADLINE_S = {"quick": 230, "thorough": 3300}
 POOLS = ["small_int", "small_int", "dyadic", "half", "yyyymm"]
 
 
